@@ -43,7 +43,7 @@ class C04(Check):
     reference_models = ["ref/jbd2model.py expected_blocks()", "crash-state reconstruction in sim/py/simcore.py (crash_image)"]
 
     def budget(self, tier):
-        return {"runs": 28, "wall_s": 80} if tier == "quick" else {"runs": 3000, "wall_s": 1500}
+        return {"runs": 28, "wall_s": 80} if tier == "quick" else {"runs": 120, "wall_s": 1500}
 
     def generate(self, rng, tier):
         return {"world_seed": rng.u64(), "crash_seed": rng.u64(), "frontend": rng.choice(["e2fsck", "e2fsck", "debugfs"]),
